@@ -26,6 +26,22 @@ CLAIMED = {
    technique='scaling families + proptest random call DAGs, CPU time of a worker child against a fixed threshold with >50x slack',
    text='Deterministic members of the call-graph families (chains with 1-3 call sites per level and mixed value/void calls up to depth 64, diamonds up to 40 layers, fan-out to a shared chain), nested struct type graphs up to depth 26, wide flat shaders (hundreds of bindings/members/constants) and random helper DAGs of up to 300 functions are each generated in a worker child; the child\'s own CPU time must stay below 2 s (shallow shaders of the same size cost < 0.06 s measured; the defect class it targets doubles per level).',
    note='CPU seconds (getrusage in the child, RLIMIT_CPU kill at 12 s), never wall clock. A crashed worker (stack overflow) is counted as skipped, not as a violation.'),
+ 'C02': dict(category='exploration', design_ref='DESIGN.md §5 C02',
+   technique='structured shader generation + complete storage-texture table; generated module compiled and executed on a recording fake device; recorded layouts judged by unmodified wgpu-core validation::Interface::check_stage and transcribed create_bind_group_layout rules',
+   text='Every run covers the complete storage-texture table (41 formats x 3 accesses x 4 dimensions + atomic) and hundreds of generated shaders using every buffer/texture/sampler kind at sparse indices. The generated Rust is compiled and run against a recording fake wgpu::Device; the layouts it hands to create_bind_group_layout / create_pipeline_layout are passed, in pipeline-layout order, as provided layouts to wgpu-core 24.0.5\'s own Interface::check_stage for every entry point (Missing / Invisible / WrongType / WrongTextureClass / filtering errors are violations) and checked against the entry rules of Device::create_bind_group_layout.',
+   note='create_bind_group_layout needs a live device, so its entry rules are a transcription (trusted); wgpu-core only validates resources an entry point uses, so the generator makes every resource used. Known finding K1 (multisampled float textures) is excluded from the search and reported from its canary.'),
+ 'C03': dict(category='exploration', design_ref='DESIGN.md §5 C03',
+   technique='proptest call-graph generation with an AST-level static-access model (cross-checked against naga ModuleInfo); visibility read with syn (wide) and from descriptors recorded by the fake device (executed)',
+   text='Thousands of generated call graphs per run (helper DAGs, diamonds, accesses and calls at every position of the statement grammar incl. continuing blocks, switch cases, nested calls, conditions, return values) are judged in both directions per variable: the emitted visibility of every binding and the push-constant stage set must equal exactly the union of stages of the entry points that statically reach the variable. The model is cross-checked against naga\'s analysis on every case (disagreement = harness error, exit 2).',
+   note='"statically uses" follows naga/wgpu (non-empty GlobalUse); forms that create an identifier reference without a use (bare pointer, phony assignment of a handle) are not generated.'),
+ 'C04': dict(category='exploration', design_ref='DESIGN.md §5 C04',
+   technique='generated bindings with sparse/unordered indices; generated code executed against a recording fake device and passes; recorded calls compared with the model',
+   text='For hundreds of generated shaders per run (1-8 groups, up to 12 bindings, indices unrelated to declaration order, up to u32::MAX) the generated module is compiled and executed: from_bindings is given a distinct resource per named field and the recorded BindGroupDescriptor must carry exactly that resource at the @binding index of the variable, exactly the layout\'s index set, and the layout it created; set / set_bind_groups / BindGroups::set must each produce exactly one set_bind_group per group at its own index on compute, render and bundle passes; the pipeline layout must list the group layouts in index order.',
+   note='The fake reproduces wgpu 24.0.5 descriptor fields and method signatures; fidelity is backed by type-checking the same text against the real crate (C01).'),
+ 'C13': dict(category='exploration', design_ref='DESIGN.md §5 C13',
+   technique='proptest generation of push-constant types/usages; WGSL size from an independent layout model; descriptor read with syn (wide) and recorded by the fake device (executed)',
+   text='Thousands of generated shaders with and without a push constant of scalar/vector/matrix/array/padded-struct type, used directly, through helpers, by a subset of stages or not at all: exactly one range 0..WGSL size iff the variable exists, the range stage set equals PUSH_CONSTANT_STAGES equals the using stages (or all stages with an entry point when unused), no range and no constant otherwise.',
+   note='WGSL size comes from the harness\'s own implementation of the spec layout rules.'),
 }
 PENDING = 'check not built yet in this round (see DESIGN.md §10 build order)'
 
